@@ -75,6 +75,8 @@ pub struct Stats {
     pub bits: Vec<u64>,
     /// maxima (merged by max, reported as counters `max.<name>`)
     pub maxes: BTreeMap<String, u64>,
+    /// order-independent digest over (run index, run trace): equal for any worker count
+    pub digest: u64,
 }
 
 const DISTINCT_CAP: usize = 3_000_000;
@@ -118,6 +120,7 @@ impl Stats {
         }
         self.steps += other.steps;
         self.extra_evals += other.extra_evals;
+        self.digest = self.digest.wrapping_add(other.digest);
         for (k, v) in other.maxes {
             self.max(&k, v);
         }
@@ -270,6 +273,13 @@ pub fn search<P: Prop>(p: &P, opts: &Opts) -> Outcome<P::Case> {
                         let case = p.gen(&mut rng, opts.tier);
                         let out = p.exec(&case, &mut st);
                         st.hit("runs");
+                        {
+                            let mut h = crate::rng::Fnv::default();
+                            h.u64(run);
+                            h.u64(out.trace);
+                            h.byte(out.violation.is_some() as u8);
+                            st.digest = st.digest.wrapping_add(h.0);
+                        }
                         if let Some(k) = out.key {
                             st.note_key(k);
                         }
